@@ -25,6 +25,7 @@ package main
 //   non-zero exit of the child is an oracle failure.
 
 import (
+	"context"
 	"bytes"
 	"fmt"
 	"math/rand"
@@ -295,6 +296,17 @@ func runC08(ops []string) CaseResult {
 		for _, i := range c08Truncated {
 			w.tags[fmt.Sprintf("exhaustive-truncated:two-reader-scenario-%d", i)] = true
 		}
+		for _, l := range c08ExplTruncHard {
+			w.tags["exhaustive-truncated:"+l] = true
+		}
+		if c08ExplPruned+c08ExplRerunOK+c08ExplNoTrace > 0 {
+			w.tags[fmt.Sprintf("explore:pruned-not-enabled=%d,driven-on-rerun=%d,no-trace=%d", c08ExplPruned, c08ExplRerunOK, c08ExplNoTrace)] = true
+		}
+		if len(c08ExplTruncHard) > 0 && !c08Exploring {
+			c08ExplOnce.Do(func() {
+				w.fail("the enumeration of scenario(s) %v, claimed exhaustive, hit its budget of %d schedules: the code has more yield points / steps than the scenario was sized for and the enumeration is only a prefix", c08ExplTruncHard, c08Budget)
+			})
+		}
 		if try > 20 && os.Getenv("VERIF_DEBUG") != "" {
 			fmt.Fprintf(os.Stderr, "c08: %d tries for the key order: %s\n", try, strings.Join(ops, " | "))
 		}
@@ -459,6 +471,25 @@ func c08TraceTids(out string) string {
 // c08Explore enumerates every complete schedule of a scenario exactly once by running the real code:
 // run(prefix + default policy) gives the executed thread sequence; every position at or after len(prefix) where another
 // thread was still unfinished spawns the child prefix.
+// schedules per scenario that is claimed exhaustive (VERIF_C08_BUDGET: self-test of the truncation report)
+var c08Budget = func() int {
+	if n, err := strconv.Atoi(os.Getenv("VERIF_C08_BUDGET")); err == nil && n > 0 {
+		return n
+	}
+	return 20000
+}()
+
+// what the enumeration left out (reported as tags on every case of the run; a truncated enumeration of a scenario that is
+// claimed exhaustive is a failure of the first case)
+var (
+	c08ExplPruned    int      // prefixes whose last choice was not enabled (duplicates of other schedules), after one re-run
+	c08ExplRerunOK   int      // prefixes that looked not enabled once and were driven on the second run (wait state mis-detected)
+	c08ExplNoTrace   int      // probes that ended without a trace (scheduler error through all attempts / no hook)
+	c08ExplTruncHard []string // scenarios claimed exhaustive whose enumeration hit the budget
+	c08ExplOnce      sync.Once
+	c08Exploring     bool // probe runs of the enumeration (their results are discarded)
+)
+
 func c08Explore(s c08Scn, budget int, emit func(ops []string)) (n int, truncated bool) {
 	var rec func(prefix string)
 	rec = func(prefix string) {
@@ -480,12 +511,21 @@ func c08Explore(s c08Scn, budget int, emit func(ops []string)) (n int, truncated
 			emit(ops)
 			n++
 			truncated = true
+			c08ExplNoTrace++
 			return
 		}
 		if !strings.HasPrefix(tr, prefix) {
 			// the last choice of the prefix was not enabled at that point (a committer waiting for sc.lock, a writer
-			// already issued): the scheduler skipped it and the run duplicates another schedule
-			return
+			// already issued): the scheduler skipped it and the run duplicates another schedule. Unless the wait state
+			// was merely mis-detected in this run: drive the prefix once more before dropping it.
+			r2 := runC08(ops)
+			if tr2 := c08TraceTids(r2.Outs[ci]); tr2 != "" && strings.HasPrefix(tr2, prefix) {
+				tr = tr2
+				c08ExplRerunOK++
+			} else {
+				c08ExplPruned++
+				return
+			}
 		}
 		emit(s.ops(tr))
 		n++
@@ -607,15 +647,21 @@ func c08Scenarios2() []c08Scn {
 var c08Truncated []int
 
 func exhC08(tier string, emit func([]string)) {
+	c08Exploring = true
+	defer func() { c08Exploring = false }()
 	if c08RunConc == nil {
 		emit(c08Scenarios1()[0].ops(""))
 		return
 	}
-	for _, s := range c08Scenarios1() {
-		c08Explore(s, 20000, emit)
+	for i, s := range c08Scenarios1() {
+		if n, trunc := c08Explore(s, c08Budget, emit); trunc && n >= c08Budget {
+			c08ExplTruncHard = append(c08ExplTruncHard, fmt.Sprintf("one-reader-%d", i))
+		}
 	}
-	for _, s := range c08ScenariosW(tier == "thorough") {
-		c08Explore(s, 20000, emit)
+	for i, s := range c08ScenariosW(tier == "thorough") {
+		if n, trunc := c08Explore(s, c08Budget, emit); trunc && n >= c08Budget {
+			c08ExplTruncHard = append(c08ExplTruncHard, fmt.Sprintf("writer-%d", i))
+		}
 	}
 	ccs := c08ScenariosCC(tier == "thorough")
 	if tier != "thorough" {
@@ -625,7 +671,10 @@ func exhC08(tier string, emit func([]string)) {
 	}
 	for i, s := range ccs {
 		t0 := time.Now()
-		n, trunc := c08Explore(s, 20000, emit)
+		n, trunc := c08Explore(s, c08Budget, emit)
+		if trunc && n >= c08Budget {
+			c08ExplTruncHard = append(c08ExplTruncHard, fmt.Sprintf("two-committer-%d", i))
+		}
 		if os.Getenv("VERIF_DEBUG") != "" {
 			fmt.Fprintf(os.Stderr, "c08 two-committer scenario %d: %d schedules truncated=%v %.1fs\n", i, n, trunc, time.Since(t0).Seconds())
 		}
@@ -738,12 +787,20 @@ func runC08Child(ops []string, needRace bool) CaseResult {
 		if err != nil {
 			panic(err)
 		}
-		cmd := exec.Command(exe, append([]string{"-child", "c08race"}, f[1:]...)...)
+		// the child's work is bounded by its own deadline (f[6] ms; every loop and every wait in it ends when the commits
+		// in flight return); a child that is still running a minute later hangs — kill it and report
+		ctx, cancel := context.WithTimeout(context.Background(), 60*time.Second)
+		cmd := exec.CommandContext(ctx, exe, append([]string{"-child", "c08race"}, f[1:]...)...)
 		cmd.Env = append(os.Environ(), "GORACE=halt_on_error=1 exitcode=66")
 		var so, se bytes.Buffer
 		cmd.Stdout, cmd.Stderr = &so, &se
 		err = cmd.Run()
+		hung := ctx.Err() != nil
+		cancel()
 		out := "ok"
+		if hung {
+			res.Fails = append(res.Fails, fmt.Sprintf("op %d (%s): the free-running child did not finish within 60 s (its own deadline is %s ms): a commit or a lookup hangs", i, op, f[6]))
+		}
 		for _, l := range strings.Split(so.String(), "\n") {
 			if strings.HasPrefix(l, "FAIL ") {
 				res.Fails = append(res.Fails, fmt.Sprintf("op %d (%s): %s", i, op, l[5:]))
